@@ -38,6 +38,26 @@ def run(c):
     # serialise pass can drift apart
     cases2, dis2, stats2 = rt.run_rt(c, oracle, n, k, known_classifier=cls, label='H-runtime (padded arrays)',
                                      profile='rt-pad', seed_base=500)
+    # the position invariant `PosOK` that `tracing_call_writes_inside_the_packet` (Props/C02.lean) assumes, evaluated by
+    # the Lean driver after every operation of sampled histories: it is expected to fail only where a platform-initiated
+    # closing was ignored (finding F9) and the buffer was then swapped
+    import random as _r
+    pos = {'histories': 0, 'PosOK_throughout': 0, 'not_PosOK_in_F9_territory': 0, 'not_PosOK_elsewhere': 0, 'samples': []}
+    rnd = _r.Random(c.seed + 4242)
+    for cs in (cases[:4] + cases2[:4]):
+        hs = [hrt.gen_history(rnd, cs.ir, cs.dname, cs.openargs, cs.recs, cs.hdr, cs.sizes) for _ in range(25)]
+        impl = hrt.run_impl(cs.exe, cs.ir, cs.dname, hs)
+        for h, a, m in zip(hs, impl, hrt.run_model(cs.ir, cs.dname, hs, hyps=True)):
+            pos['histories'] += 1
+            if 'hyp PosOK=1' in m[-2:]:
+                pos['PosOK_throughout'] += 1
+            elif rt.f9_territory(cs, h, a):
+                pos['not_PosOK_in_F9_territory'] += 1
+            else:
+                pos['not_PosOK_elsewhere'] += 1
+                if len(pos['samples']) < 3:
+                    pos['samples'].append({'config_seed': cs.seed, 'history': h})
+    c.coverage['correspondence']['theorem hypothesis PosOK on model runs'] = pos
     # operation trees (where every write lands relative to `at`) of many more layouts, nothing compiled; a layout
     # that differs from the model is built and run against the guard page
     from checks import lycommon as ly
